@@ -193,10 +193,10 @@ func nativeReplay(repo, harnessDir string, hdir string, c *CexFile, cexPath stri
 	ovb, _ := json.Marshal(map[string]interface{}{"Replace": repl})
 	ovf := filepath.Join(tmp, "overlay.json")
 	os.WriteFile(ovf, ovb, 0o644)
-	cmd := exec.Command("timeout", "300", "go", "test", "-tags", "verif", "-vet=off", "-count=1", "-run", "^TestVFReplay$", "-overlay", ovf, pkgOfHarnessDir[hdir])
+	cmd := exec.Command("timeout", "300", "go", "test", "-v", "-tags", "verif", "-vet=off", "-count=1", "-run", "^TestVFReplay$", "-overlay", ovf, pkgOfHarnessDir[hdir])
 	cmd.Dir = repo
 	cmd.Env = append(os.Environ(), "GOFLAGS=-mod=mod", "GOPROXY=off", "GOSUMDB=off", "GOTOOLCHAIN=local",
-		"VF_REPLAY="+cexPath, "VF_PARAMS="+paramStr(c.Params), "GOCACHE="+filepath.Join(tmp, "gocache"))
+		"VF_REPLAY="+cexPath, "VF_PARAMS="+paramStr(c.Params))
 	out, _ := cmd.CombinedOutput()
 	txt := string(out)
 	for _, l := range strings.Split(txt, "\n") {
@@ -330,6 +330,7 @@ func cmdCheck(args []string) {
 	var lines []string
 	nviol, nreplayed := 0, 0
 	knownHit := map[string]bool{}
+	confirmed := map[string]string{}
 	cexDir := filepath.Join(verifDir(), "out", "cex", *prop)
 	os.MkdirAll(cexDir, 0o755)
 	for i, r := range results {
@@ -368,6 +369,10 @@ func cmdCheck(args []string) {
 				}
 				continue
 			}
+			if confirmed[v.Sig] != "" {
+				// same signature already confirmed from another job of this property
+				continue
+			}
 			nviol++
 			c := &CexFile{Property: *prop, Harness: j.H, Params: j.P, Conc: j.Conc, Race: j.Race, Violation: v, Nondet: v.Nondet, Trail: v.Trail}
 			path := filepath.Join(cexDir, fmt.Sprintf("%s-%s-%d.json", j.H, strings.ReplaceAll(paramStr(j.P), ",", "_"), vi))
@@ -375,6 +380,7 @@ func cmdCheck(args []string) {
 			ok, msg := confirmCex(p, *repo, *hd, c, path)
 			nreplayed++
 			if ok {
+				confirmed[v.Sig] = path
 				lines = append(lines, fmt.Sprintf("VIOLATION property=%s replay=%s", *prop, path))
 				fmt.Fprintf(os.Stderr, "  confirmed: %s: %s (%s)\n", v.Sig, v.Msg, msg)
 				exit = 1
